@@ -14,6 +14,7 @@ import (
 	"math/big"
 	"os"
 	"reflect"
+	"unsafe"
 
 	"github.com/tuneinsight/lattigo/v6/core/rlwe"
 	"github.com/tuneinsight/lattigo/v6/multiparty"
@@ -142,6 +143,26 @@ func runOp(o fop, seed uint64) ev {
 			}
 		}
 		r.outs = hex.EncodeToString(h.Sum(nil)[:8])
+		// storage: overwriting everything reachable from the outputs must not reach an input (no backing array of an
+		// input may have been handed to a receiver)
+		if !pan {
+			for _, a := range args {
+				if a.Role == "out" {
+					clobber(reflect.ValueOf(a.V), map[uintptr]bool{}, 0)
+				}
+			}
+			for i, a := range args {
+				if a.Role == "in" {
+					r.args[i]["sep"] = dg(a.V) == before[i] || !r.args[i]["same"].(bool)
+				} else {
+					r.args[i]["sep"] = true
+				}
+			}
+		} else {
+			for i := range r.args {
+				r.args[i]["sep"] = true
+			}
+		}
 		return r
 	}
 	fresh := one(false)
@@ -150,6 +171,62 @@ func runOp(o fop, seed uint64) ev {
 	e["dargs"], e["derr"], e["dpanic"] = dirty.args, dirty.err, dirty.pan
 	e["again"] = fresh.outs == dirty.outs
 	return e
+}
+
+// clobber flips every uint64 reachable from v through pointers, structs, slices, arrays and maps (lattice data lives in
+// [][]uint64); shared tables are not reachable from data objects (shares, ciphertexts, keys, polynomials, vectors).
+func clobber(v reflect.Value, seen map[uintptr]bool, depth int) {
+	if depth > 12 || !v.IsValid() {
+		return
+	}
+	switch v.Kind() {
+	case reflect.Ptr:
+		if v.IsNil() || seen[v.Pointer()] {
+			return
+		}
+		seen[v.Pointer()] = true
+		clobber(v.Elem(), seen, depth+1)
+	case reflect.Interface:
+		if !v.IsNil() {
+			clobber(v.Elem(), seen, depth+1)
+		}
+	case reflect.Struct:
+		switch v.Type().Name() {
+		case "Ring", "SubRing", "Parameters", "Int", "Float":
+			return
+		}
+		for i := 0; i < v.NumField(); i++ {
+			f := v.Field(i)
+			if f.CanAddr() {
+				f = reflect.NewAt(f.Type(), unsafe.Pointer(f.UnsafeAddr())).Elem()
+			}
+			clobber(f, seen, depth+1)
+		}
+	case reflect.Slice:
+		if v.IsNil() {
+			return
+		}
+		if v.Type().Elem().Kind() == reflect.Uint64 {
+			if v.Len() > 0 && v.Index(0).CanSet() {
+				for i := 0; i < v.Len(); i++ {
+					v.Index(i).SetUint(v.Index(i).Uint() ^ 0xa5a5a5a5a5a5a5a5)
+				}
+			}
+			return
+		}
+		for i := 0; i < v.Len(); i++ {
+			clobber(v.Index(i), seen, depth+1)
+		}
+	case reflect.Array:
+		for i := 0; i < v.Len(); i++ {
+			clobber(v.Index(i), seen, depth+1)
+		}
+	case reflect.Map:
+		it := v.MapRange()
+		for it.Next() {
+			clobber(it.Value(), seen, depth+1)
+		}
+	}
 }
 
 // ------------------------------------------------------------------------------------------------------------------
